@@ -13,7 +13,7 @@ from ..report import AnalysisError
 from ..srcmodel import norm
 from . import tr
 from ..tracer import Tracer
-from .common import node_obj, fde_guard
+from .common import node_obj, fde_guard, thorough
 
 
 def _fde(repo, stubs=(), stub=None):
@@ -1506,7 +1506,7 @@ def xref_chain_table(repo, run, rule):
     fi = repo.func('XRefNode.ayns.on_evaluate_impl')
     bad = []
     rows = 0
-    for n in (1, 2, 3):
+    for n in ((1, 2, 3, 4, 5, 6, 8) if thorough() else (1, 2, 3)):
         for end in ('node', 'null', 'missing', 'cycle'):
             xs = [node_obj('x%d' % i, 'XRefNode') for i in range(1, n + 1)]
             tgt = node_obj('target', 'ConfigScalar')
@@ -1694,8 +1694,11 @@ def list_merge_keys_table(repo, run, rule):
     fi = repo.func('ConfigList.ayns.on_merge_impl')
     bad = []
     rows = 0
-    for L in (0, 1, 3):
+    for L in ((0, 1, 2, 3, 4, 6) if thorough() else (0, 1, 3)):
         keysets = [[0], [0, 1], [L], [-1], [-L], [-L - 1], [0, L], [L + 2], [1, 0], []]
+        if thorough():
+            import itertools
+            keysets += [list(c) for c in itertools.combinations(range(-L - 1, L + 2), 2)] + [[k] for k in range(-L - 2, L + 3)]
         if L:
             keysets += [[L - 1], [L - 1, L], [-L, L - 1]]
         for keys in keysets:
@@ -1933,24 +1936,25 @@ def propagate_implicit_table(repo, run, rule, flags=('delete', 'allow_new')):
                 for c in (None, True, False):
                     if i is None:
                         continue        # nothing inherited: the function returns at once (covered by the other rows' complement)
-                    gc = node_obj('grandchild', 'ConfigNode', **{'_implicit_' + flag: c})
-                    child = node_obj('child', 'ConfigDict', _children={'g': gc}, **{'_implicit_' + flag: c})
-                    me = node_obj('node', 'ConfigDict', _children={'k': child}, **{'_' + flag: e, '_implicit_' + flag: i})
-                    ev_ = FDE(repo)
-                    r = fde_guard(lambda: ev_.call(fi, me))
-                    rows += 1
-                    want = i if e is None else c
-                    got = child.f.get('_implicit_' + flag)
-                    # (the evaluator records the recursive call instead of unfolding it: the change travels down when the child is re-propagated)
-                    went_down = any(x[0] == 'call' and x[1] == '_propagate_implicit_values' and x[2] is child for x in ev_.effects)
-                    got_g = want if went_down or got is c else gc.f.get('_implicit_' + flag)
-                    what = 'a node with explicit %s=%r that inherited %r, child recorded %r' % (flag, e, i, c)
-                    if r.raised:
-                        bad.append('%s: raises %s' % (what, r.raised))
-                    elif got is not want:
-                        bad.append('%s: afterwards the child records %r as inherited, expected %r%s' % (what, got, want, ' (the explicit flag of the node is what its children inherit)' if e is not None else ''))
-                    elif e is None and got_g is not want:
-                        bad.append('%s: the child is updated but not re-propagated: its own children keep %r' % (what, got_g))
+                    for extra in (({}, {'_safe': True}, {'_safe': False, '_implicit_safe': False}, {'_delete' if flag != 'delete' else '_allow_new': False}, {'_priority': 1}) if thorough() else ({},)):
+                        gc = node_obj('grandchild', 'ConfigNode', **{'_implicit_' + flag: c})
+                        child = node_obj('child', 'ConfigDict', _children={'g': gc}, **{'_implicit_' + flag: c})
+                        me = node_obj('node', 'ConfigDict', _children={'k': child}, **dict(extra, **{'_' + flag: e, '_implicit_' + flag: i}))
+                        ev_ = FDE(repo)
+                        r = fde_guard(lambda: ev_.call(fi, me))
+                        rows += 1
+                        want = i if e is None else c
+                        got = child.f.get('_implicit_' + flag)
+                        # (the evaluator records the recursive call instead of unfolding it: the change travels down when the child is re-propagated)
+                        went_down = any(x[0] == 'call' and x[1] == '_propagate_implicit_values' and x[2] is child for x in ev_.effects)
+                        got_g = want if went_down or got is c else gc.f.get('_implicit_' + flag)
+                        what = 'a node with explicit %s=%r that inherited %r, child recorded %r' % (flag, e, i, c)
+                        if r.raised:
+                            bad.append('%s: raises %s' % (what, r.raised))
+                        elif got is not want:
+                            bad.append('%s: afterwards the child records %r as inherited, expected %r%s' % (what, got, want, ' (the explicit flag of the node is what its children inherit)' if e is not None else ''))
+                        elif e is None and got_g is not want:
+                            bad.append('%s: the child is updated but not re-propagated: its own children keep %r' % (what, got_g))
     run.table(rule, rows, 'explicit flag x inherited value x child record, for %s' % ' / '.join(flags))
     if bad:
         run.violation(rule, fi, 'propagation table', bad[0] + (' [%d rows]' % len(bad) if len(bad) > 1 else ''), witness=bad[:4])
